@@ -273,6 +273,10 @@ impl Core {
                     self.solo_counted = true;
                     r.fault(Fault::SoloFreeze);
                 }
+                // nobody else may run, so every decision is trivially fair: a solo call
+                // that makes no progress for half a window never returns
+                self.last_fair = true;
+                self.fair_idle += 1;
                 return Some(s);
             }
             // the solo task blocked on something a frozen task holds
